@@ -42,10 +42,10 @@ type shardResp struct {
 
 // WorkerArgs is how a child process is started for a part: argv after the binary name.
 type WorkerSpec struct {
-	Args    []string // e.g. ["C07","quick","--worker","part name"]
-	Procs   int      // number of worker processes
-	Env     []string // extra environment
-	Frontier int     // open subtrees wanted before handing out (default 8*Procs)
+	Args     []string // e.g. ["C07","quick","--worker","part name"]
+	Procs    int      // number of worker processes
+	Env      []string // extra environment
+	Frontier int      // open subtrees wanted before handing out (default 8*Procs)
 }
 
 // subtree explores every execution below prefix sequentially.
@@ -175,10 +175,10 @@ func ServeWorker(name string, cfg Config, param any, body func(*Ctx)) {
 
 type workerProc struct {
 	watchdog atomic.Bool // killed because the deadline (plus grace) passed
-	cmd    *exec.Cmd
-	stdin  io.WriteCloser
-	stdout *bufio.Reader
-	stderr *bytes.Buffer
+	cmd      *exec.Cmd
+	stdin    io.WriteCloser
+	stdout   *bufio.Reader
+	stderr   *bytes.Buffer
 }
 
 func startWorker(spec WorkerSpec) (*workerProc, error) {
